@@ -928,11 +928,11 @@ FILE3_CELLS = {"VER3": 3, "PGM": 3, "COM": 1, "MNUM": 1, "MTYPE": 1, "OBSAG": 2,
 
 
 def gen_file3_model(rng, thorough: bool) -> Dict[str, Any]:
-    """gen_file3 restricted to the record kinds of the theorem's file model (no phase shift / GLONASS slot / bias records,
+    """gen_file3 restricted to the record kinds of the theorem's file model (no phase shift records,
     comment texts without leading blanks: a cell of the abstract file has no outer blanks), every epoch with its flag (0, or 1 =
     power failure between the previous and this epoch: the observation records follow as for flag 0)"""
     m = gen_file3(rng, thorough)
-    m["phase_shift"], m["glonass_slot"], m["glonass_bias"] = [], [], None
+    m["phase_shift"] = []  # GLONASS slot / bias records are in the model (one cell per slot/frequency resp. type/bias pair)
     m["comments"] = [(p, t.strip()) for p, t in m["comments"]]
     for ep in m["epochs"]:
         ep["flag"] = "1" if rng.random() < 0.15 else "0"
@@ -945,7 +945,7 @@ NONBLANK = TEXT.replace(" ", "")
 
 
 def gen_special_records(rng) -> List[Tuple[str, List[str]]]:
-    """special records of an event epoch: header records whose label starts with a letter (cells without outer blanks);
+    """special records of an event epoch: header records (cells without outer blanks), `# OF SATELLITES` included;
     comment texts sometimes with four digits in columns 3-6, where the epoch record has its year"""
     recs: List[Tuple[str, List[str]]] = []
     if rng.random() < 0.85:
@@ -961,6 +961,8 @@ def gen_special_records(rng) -> List[Tuple[str, List[str]]]:
         recs.append(("DHEN", [fixed(rng, -10, 10, 4, True) for _ in range(3)]))
     if rng.random() < 0.15:
         recs.append(("ANT", [rtext(rng, 20), rng.choice(["TRM55971.00     NONE", ""])]))
+    if rng.random() < 0.25:
+        recs.append(("NSAT", [str(rng.randint(1, 120))]))  # label starts with '#': columns 3-6 of the line hold a number
     if not recs and rng.random() < 0.7:
         recs.append(("COM", ["event"]))
     return recs
@@ -1010,6 +1012,13 @@ def file3_tokens(m) -> List[str]:
             toks.append(f"S:{hexs(c[0].strip())}:{hexs(c[1].strip())}:" + ";".join(",".join(hexs(t.strip()) for t in l) for l in lines))
         elif k == "MNAME":
             toks.append("M:" + hexs(c[0].strip()))
+        elif k in ("GSLOT", "GSLOTC"):
+            head, pairs = ([c[0].strip()], c[1:]) if k == "GSLOT" else ([""], c)
+            cells = head + [f"{pairs[j]:<3} {pairs[j + 1]:>2}".strip() for j in range(0, len(pairs), 2)]
+            toks.append("P:GSLOTP:" + ",".join(hexs(x) for x in cells + [""] * (9 - len(cells))))
+        elif k == "GBIAS":
+            cells = [f"{c[j]:<3} {c[j + 1]:>8}".strip() for j in range(0, len(c), 2)]
+            toks.append("P:GBIASP:" + ",".join(hexs(x) for x in cells + [""] * (4 - len(cells))))
         else:
             if FILE3_CELLS.get(k) != len(c):
                 raise ValueError(f"record {k} with {len(c)} cells is outside the file model")
@@ -1044,6 +1053,13 @@ def first_diff_line(got: str, want: str) -> Tuple[int, str, str]:
     gl, wl = got.split("\n"), want.split("\n")
     k = next((j for j, (x, y) in enumerate(zip(gl, wl)) if x != y), min(len(gl), len(wl)))
     return k, (gl[k] if k < len(gl) else "<end of text>"), (wl[k] if k < len(wl) else "<end of text>")
+
+
+def stats_file3_glonass(ctx, m):
+    if m.get("glonass_slot"):
+        ctx.count("file3 GLONASS slot record" + (" with continuation" if len(m["glonass_slot"]) > 8 else ""))
+    if m.get("glonass_bias") is not None:
+        ctx.count("file3 GLONASS bias record")
 
 
 def stats_file3(ctx: Ctx, m, rate):
@@ -1092,6 +1108,7 @@ def one_file3(ctx: Ctx, drv, wd: Workdir, m, rate, i: int):
     ctx.case(common.digest([text, rate, "file3"]),
              nontrivial=(max(len(e["sats"]) for e in m["epochs"]) >= 2 and (cont or rate is not None or flagged)))
     stats_file3(ctx, m, rate)
+    stats_file3_glonass(ctx, m)
     p, err, exc = run_impl(wd, 3, text, rate)
     impl = err if p is None else canon_impl(p)
     if drv is not None:
